@@ -2854,6 +2854,7 @@ template <typename T>
       static_assert(H > 0 || !Parent::sequence_set,
                     "IN_SEQUENCE and TIMES(0) does not make sense");
 
+      auto lock = get_lock();
       m.matcher->sequences->set_limits(L, H);
       return {std::move(m).matcher};
     }
@@ -2877,6 +2878,7 @@ template <typename T>
          throw std::logic_error{"In RT_TIMES the first value must not exceed the second"};
       }
 
+      auto lock = get_lock();
       m.matcher->sequences->set_limits(bounds.low, bounds.high);
       return std::move(m).matcher;
     }
